@@ -19,7 +19,7 @@ def gen(chk, mpmath, rng):
     for kf in [k for k in chk.known if k.get("status") == "known" and "rep" in k]:
         rep = kf["rep"]; p = rep["p"]; mp.prec = p
         got = mp.quadgl(lambda x: x ** rep["k"] * mp.exp(-x), [0, mp.inf])
-        yield ex.relabs_close(got, ex.seqn("fact", rep["k"]), 10, p), {"pinned": kf["key"], "key": "analytic/x^k e^-ax/quadgl/p>=200", "k": rep["k"], "p": p, "what": "pinned representative"}
+        yield ex.relabs_close(got, ex.seqn("fact", rep["k"]), 10, p), {"pinned": kf["key"], "key": "analytic/x^k e^-ax/quadgl/p>=150", "k": rep["k"], "p": p, "what": "pinned representative"}
         mp.prec = 53
     for i in range(chk.pick(260, 1500)):
         p = rng.choice([30, 53, 53, 80, 120, rng.randint(30, 300)])
@@ -38,7 +38,7 @@ def gen(chk, mpmath, rng):
                 which = rng.choice(["x^k e^-ax", "x^k e^-ax", "x^(2j+1) e^-x^2", "x^(2j+1) e^-x^2", "x^-s tail", "x^(m/n)", "x^k log x", "1/(x+c)^k tail", "1/(x+c)^k finite", "1/(x+c)^k finite"])
                 # Gauss-Legendre is documented for smooth integrands only: algebraic / logarithmic endpoint behaviour (also at
                 # infinity, after the interval transformation) is left to tanh-sinh
-                # Exponentially decaying integrands on [0, inf] are in the statement for Gauss-Legendre as well (known finding at p >= 200).
+                # Exponentially decaying integrands on [0, inf] are in the statement for Gauss-Legendre as well (known finding at p >= 150).
                 meth = rng.choice(["quad", "quadts", "quadgl"]) if which in ("x^k e^-ax", "x^(2j+1) e^-x^2") else rng.choice(["quad", "quadts"])
                 k = rng.randint(0, 6)
                 if which == "x^k e^-ax":
@@ -74,7 +74,7 @@ def gen(chk, mpmath, rng):
                     cq = Fr(rng.randint(1, 5)); kk = rng.randint(2, 5)
                     got = getattr(mp, meth)(lambda x: 1 / (x + cq.numerator) ** kk, [0, mp.inf])
                     exact = ex.div(1, ex.mul(kk - 1, ex.powi(ex.Qf(cq), kk - 1)))
-                band = "/p>=200" if meth == "quadgl" and which in ("x^k e^-ax", "x^(2j+1) e^-x^2") and p >= 200 else ""
+                band = "/p>=150" if meth == "quadgl" and which in ("x^k e^-ax", "x^(2j+1) e^-x^2") and p >= 150 else ""
                 yield ex.relabs_close(got, exact, 10, p), {"key": "analytic/%s/%s%s" % (which, meth, band), "k": k, "p": p, "what": "integral with a rational closed form differs from it by more than 2^(10-p)"}
                 continue
             if kind < 0.45:
